@@ -325,3 +325,41 @@ Proof.
     destruct (Hpl n Hn) as [N1 N2]. destruct (P2 n Hn) as [_ S2]. cbn [word_wf]. repeat split; assumption. }
   rewrite <- R. rewrite (C01_expansion _ (wf_with_commas _ W)). rewrite D. reflexivity.
 Qed.
+
+(* ---------- [printable] is decidable: the correspondence run reports how many of its lists the theorems above speak about ---------- *)
+Definition hr_ok2b (r : hr) : bool :=
+  (if single r then (lo r =? 0) && (hi r =? 0) else (lo r <=? hi r) && (hi r <? ULONG - 1)) && (hi r <? NUM_LIMIT).
+Definition rprintb (r : hr) : bool :=
+  hr_ok2b r && plain_text (pfx r) && (negb (single r) || negb (is_nil (pfx r))) && (single r || (hi r - lo r <? MAX_RANGE)).
+Definition shortb (n : bytes) : bool :=
+  (N.of_nat (length n) <? SUFFIX_HOST_SIZE - 1) && (N.of_nat (length n) <? CUR_TOK_SIZE - 1).
+Definition printableb (l : list hr) : bool :=
+  forallb rprintb l && forallb shortb (expand l) && (N.of_nat (length l) <=? MAX_RANGES).
+
+Lemma rprintb_sound r : rprintb r = true -> rprint r.
+Proof.
+  unfold rprintb, hr_ok2b, rprint, hr_ok2, hr_ok, named. intro H.
+  apply andb_true_iff in H as [H H4]. apply andb_true_iff in H as [H H3]. apply andb_true_iff in H as [H H2].
+  apply andb_true_iff in H as [H1 H1'].
+  destruct (single r) eqn:Es.
+  - apply andb_true_iff in H1 as [A B]. apply N.eqb_eq in A. apply N.eqb_eq in B. apply N.ltb_lt in H1'.
+    repeat split; try assumption; try discriminate.
+    intros _ E. rewrite E in H3. discriminate H3.
+  - apply andb_true_iff in H1 as [A B]. apply N.leb_le in A. apply N.ltb_lt in B. apply N.ltb_lt in H1'.
+    cbn [orb] in H4. apply N.ltb_lt in H4. repeat split; try assumption; try discriminate. intros _. exact H4.
+Qed.
+
+Lemma shortb_sound n : shortb n = true -> short n.
+Proof.
+  unfold shortb, short, SUFFIX_HOST_SIZE, CUR_TOK_SIZE. intro H. apply andb_true_iff in H as [A B].
+  apply N.ltb_lt in A. apply N.ltb_lt in B. lia.
+Qed.
+
+Theorem printableb_sound l : printableb l = true -> printable l.
+Proof.
+  unfold printableb, printable. intro H. apply andb_true_iff in H as [H C]. apply andb_true_iff in H as [A B].
+  split; [|split].
+  - apply Forall_forall. intros r Hr. apply rprintb_sound. rewrite forallb_forall in A. apply A. exact Hr.
+  - apply Forall_forall. intros n Hn. apply shortb_sound. rewrite forallb_forall in B. apply B. exact Hn.
+  - apply N.leb_le in C. unfold MAX_RANGES in *. lia.
+Qed.
